@@ -23,6 +23,10 @@ def run(m, tier):
     results.append(guard_rules.delimiter_offset_rule(m, "C01.R13"))
     results.append(guard_rules.keyword_prefix_rule(m, "C01.R14"))
     results.append(guard_rules.index_provenance_rule(m, "C01.R21"))
+    from rules import two_roundtrip
+    results.append(two_roundtrip.roundtrip_rule(m, "C01.R22", floor=230))
+    from rules import reader_rules as _rr
+    results.append(_rr.replace_map_table_rule(m, "C01.R23"))
     from rules import optional_rules
     results.append(optional_rules.optional_rule(m, "C01.R12"))
     results.append(optional_rules.printed_rule(m, "C01.R18"))
